@@ -271,6 +271,9 @@ def judge(case, ctx, prefix='C16'):
                     same_z = True                                    # both open
                 if not same_z:
                     ctx.violation(f'{prefix}/{op}/deactivated-source-immittance-altered', f'{o!r} -> {b!r}: inner impedance {zo!r} became {zb!r}', {})
+                # ... between the same terminals in the same order (nodes can only have been renamed by a contraction, never swapped)
+                if (b.node1, b.node2) == (o.node2, o.node1) and o.node1 != o.node2:
+                    ctx.violation(f'{prefix}/{op}/deactivated-source-reversed', f'{o!r} -> {b!r}: the terminals of the switched-off source were exchanged', {})
         if op == 'passive_network' and not case['keep'] and z.branches:
             # port behaviour of the stripped network = deactivated original
             zn = z.node_labels
